@@ -251,7 +251,7 @@ SPECIAL_SCALARS = [F(0), F(0), F(1), F(1), F(-1), F(2), F(1, 2), F(-1, 2), F(3, 
 
 
 def _special_matrix(rng, n):
-    kind = rng.choice(["sparse", "unimodular", "affine", "diagonal", "perm"])
+    kind = rng.choice(["sparse", "unimodular", "affine", "diagonal", "perm", "scaled-affine", "near-diagonal", "near-identity"])
     I = [[F(1) if r == c else F(0) for r in range(n)] for c in range(n)]      # columns
     if kind == "sparse":
         m = [[rng.choice([F(0), F(0), F(1), F(-1), rng.small()]) for _ in range(n)] for _ in range(n)]
@@ -268,6 +268,20 @@ def _special_matrix(rng, n):
             m[c][n - 1] = F(1) if c == n - 1 else F(0)
         if rng.chance(1, 3):
             m[rng.below(n - 1)][n - 1] = rng.small()                             # almost affine
+    elif kind == "scaled-affine":
+        # bottom row (0, .., 0, w) with w != 1 (and sometimes 0): affine up to the homogeneous weight
+        m = [[rng.small() for _ in range(n)] for _ in range(n)]
+        for c in range(n):
+            m[c][n - 1] = F(0)
+        m[n - 1][n - 1] = rng.choice([F(2), F(1, 2), F(4), F(-1), F(3), F(0)])
+    elif kind in ("near-diagonal", "near-identity"):
+        # off-diagonal entries far below the approximate-equality allowance (2^-52) but not zero: `is_diagonal()` /
+        # `is_identity()` hold although the matrix is not diagonal / the identity
+        t = F(1, 2 ** 60)
+        m = [[((F(1) if kind == "near-identity" else rng.choice([F(2), F(1, 2), F(1), F(-1), F(3), F(1, 2 ** 58)])) if r == c
+               else rng.choice([F(0), t, -t, 3 * t])) for r in range(n)] for c in range(n)]
+        if all(m[c][r] == 0 for c in range(n) for r in range(n) if r != c):
+            m[0][n - 1] = t
     elif kind == "diagonal":
         m = [[(rng.choice([F(2), F(1, 2), F(1), F(-1), F(3)]) if r == c else F(0)) for r in range(n)] for c in range(n)]
     else:
@@ -279,6 +293,10 @@ def _special_matrix(rng, n):
             c = rng.below(n)
             m[c] = [-x for x in m[c]]
     return [x for col in m for x in col]
+
+
+def special_matrix(rng, n):
+    return _special_matrix(rng, n)
 
 
 def gen_special(rng, op):
